@@ -72,7 +72,7 @@ theorem of_count_new {f' : Forest} (h : Good f) (hn : f'.next = f.next + 1)
 theorem newNode (h : Good f) (v : Value) : Good (f.newNode v).1 := by
   apply h.of_count_new (by simp [Forest.newNode])
   intro a
-  simp only [Forest.newNode, handlesList_append, List.count_append, handlesList, handles,
+  simp only [Forest.newNode, handlesList_append_ff, List.count_append, handlesList, handles,
     List.append_nil, List.count_cons, List.count_nil, beq_iff_eq]
   by_cases e : a = f.next
   · simp [e]
@@ -87,7 +87,7 @@ theorem count_move_last {X Y A B ks : List HTree} {tc : HTree} {p : Nat} {v : Va
     (handlesList (A ++ HTree.node p v (ks ++ [tc]) :: B)).count a =
       (handlesList (X ++ tc :: Y)).count a := by
   have e := congrArg (fun l => (handlesList l).count a) hXY
-  simp only [handlesList_append, handlesList, handles, List.count_append, List.count_cons,
+  simp only [handlesList_append_ff, handlesList, handles, List.count_append, List.count_cons,
     List.append_nil] at e ⊢
   omega
 
@@ -101,7 +101,7 @@ theorem good_after_insert {f : Forest} {A ks : List HTree} {el : Nat} {v e : Val
     Good { f with roots := A ++ [HTree.node el v (ks ++ [.node f.next e []])], next := f.next + 1 } := by
   apply hg.of_count_new rfl
   intro a
-  simp only [hroots, handlesList_append, handlesList, handles, List.count_append, List.count_cons,
+  simp only [hroots, handlesList_append_ff, handlesList, handles, List.count_append, List.count_cons,
     List.count_nil, List.append_nil, beq_iff_eq]
   by_cases e : a = f.next
   · simp [e]; omega
